@@ -75,6 +75,17 @@ def run(ctx: Ctx) -> None:
         okr = len(rr) == 1 and len(rr[0].args) >= 3 and unparse(rr[0].args[0]) == 'self' and unparse(rr[0].args[1]) == xstar
         ctx.add('C07.R2', f'BIOGEME.{mname}:results-point', okr, (e.file, rr[0].lineno if rr else e.line), f'RawResults receives {xstar}' if okr else f'RawResults receives {unparse(rr[0].args[1]) if rr and len(rr[0].args) > 1 else "?"}', unparse(rr[0]) if rr else '')
         if okr and ev:
+            # the point that reaches RawResults is the one that was evaluated: only the unpacking of the main optimisation defines it
+            at_r, at_e = cfg.node_of(rr[0]), cfg.node_of(ev[0])
+            dr = {d.node for d in cfg.reaching(at_r, xstar)}
+            de = {d.node for d in cfg.reaching(at_e, xstar)}
+            want = {cfg.node_of(unp[0])}
+            oks = dr == want and de == want
+            other = sorted(getattr(cfg.stmt.get(n), 'lineno', 0) for n in (dr | de) - want)
+            ctx.add('C07.R2', f'BIOGEME.{mname}:same-point', oks, (e.file, rr[0].lineno),
+                    f'the {xstar} handed to RawResults is the {xstar} of the final evaluation (defined once, by the main optimisation)' if oks
+                    else f'{xstar} is assigned again between the main optimisation and RawResults{(" (line " + ", ".join(map(str, other)) + ")") if other else ""}: the reported point is not the point at which the likelihood and its derivatives were evaluated', 'same-point')
+        if okr and ev:
             evn = unparse(ev[0].targets[0] if isinstance(ev[0], ast.Assign) else ev[0].target)
             third = unparse(rr[0].args[2])
             # the third argument is the evaluation, or an object built from its fields
